@@ -567,9 +567,10 @@ class ExprCompiler(CompilerBase, AstVisitor[Wire]):
         return tag_value
 
     def visit_PanicExpr(self, node: PanicExpr) -> Wire:
+        # Evaluate the operands in the order they are written: `exit(msg, signal, ...)`
+        msg = self.visit(node.msg)
         signal = self.visit(node.signal)
         signal_usize = self.builder.add_op(convert_itousize(), signal)
-        msg = self.visit(node.msg)
         err = self.builder.add_op(make_error(), signal_usize, msg)
         in_tys = [get_type(e).to_hugr(self.ctx) for e in node.values]
         out_tys = [ty.to_hugr(self.ctx) for ty in type_to_row(get_type(node))]
